@@ -239,6 +239,24 @@ SHAPES_ALL = [(), (1,), (2,), (3,), (1, 2), (2, 1), (2, 2), (2, 1, 2), (1, 2, 2)
 NAME_SETS = [("q0",), ("q1",), ("q0", "q1"), ("q0", "q2"), ("q2", "q10"), ("q10",), ("q0", "q1", "q2"), ("q1", "q0"), ("q2", "q0"), ("q10", "q2", "q0")]
 
 
+def many_names_spec(prefix: str, nnames: int, used: Sequence[int], shape, rng: random.Random, atoms: int = 2, maxexp: int = 1) -> Dict:
+    """A polynomial that *declares* q0..q<nnames-1> but uses only the indeterminates listed in ``used`` (few terms, wide exponent
+    rows): whatever packs, hashes or ranks whole exponent rows meets rows far wider than its small cases."""
+    names = tuple("q%d" % i for i in range(nnames))
+    rows = [[0] * nnames]
+    for u in used:
+        r = [0] * nnames
+        r[u] = rng.choice(range(1, maxexp + 1))
+        rows.append(r)
+    if len(used) >= 2:
+        r = [0] * nnames
+        r[used[0]] = 1
+        r[used[-1]] = maxexp
+        rows.append(r)
+    rows = [list(r) for r in dict.fromkeys(tuple(r) for r in rows)]
+    return make_poly_spec(prefix, names, rows, shape, rng, atoms, zero_prob=0.0, literal_prob=0.3, mode="raw")
+
+
 def size_of(shape) -> int:
     n = 1
     for s in shape:
